@@ -4,6 +4,7 @@ import (
 	"math/rand"
 	"net/netip"
 	"sort"
+	"strconv"
 	"strings"
 
 	"github.com/AdguardTeam/urlfilter/rules"
@@ -27,9 +28,14 @@ var Hosts = []string{
 	// Names on which a character-class pre-check and the address parser
 	// disagree, and non-ASCII host names.
 	"1.2.3", "1.2.3.4.5", "abc", "12", "fe80", "bücher.example", "пример.рф",
+	// Names with many labels (walks over parent domains have no small bound).
+	"a.b.c.d.e.f.g.h.i.j.k.l.example.org", DeepHost,
 	// A label of the maximum length of 63 characters.
 	Label63 + ".com", "x." + Label63 + ".a.com",
 }
+
+// DeepHost is a name of 40 labels below a.com.
+var DeepHost = strings.Repeat("x.", 38) + "a.com"
 
 // Label63 is a host name label of the maximum legal length.
 const Label63 = "a23456789-b23456789-c23456789-d23456789-e23456789-f23456789-xyz"
@@ -39,6 +45,7 @@ var DomainValues = []string{
 	"a.com", "b.a.com", "a.org", "a.co.uk", "evil.org", "google.com", "google.co.uk", "google.*", "a.*",
 	"xgoogle.*", "ads.net", "example.com", "example.org", "sub.example.org", "tracker.io",
 	"www.ck", "kawasaki.jp", "city.kawasaki.jp", "co.uk", "com", "localhost", "example.*", "www.google.*", "b.a.*", "ads.example.*", "abc.de", "cafe",
+	"a.b.c.d.e.f.g.h.i.j.k.l.example.org", "h.i.j.k.l.example.org", DeepHost,
 }
 
 // DenyAllowValues are values for $denyallow (no wildcard: the statement does
@@ -241,6 +248,7 @@ func AddRandomMods(rng *rand.Rand, s *Spec, k ModKinds, p float64) {
 	if rng.Intn(12) == 0 && len(s.DenyAllow) > 0 {
 		s.DenyAllow = append(s.DenyAllow, s.DenyAllow[rng.Intn(len(s.DenyAllow))])
 	}
+	padLists(rng, s)
 	if on(k.Client) {
 		n := 1 + rng.Intn(6)
 		for i := 0; i < n; i++ {
@@ -257,6 +265,49 @@ func AddRandomMods(rng *rand.Rand, s *Spec, k ModKinds, p float64) {
 				s.Clients = append(s.Clients, cl)
 			}
 		}
+	}
+}
+
+// padLists occasionally makes a value list long (15..80 entries, well above any
+// small-list special case) with filler values that no request uses, in the
+// polarity that leaves the rule's meaning for the vocabulary unchanged, at
+// random positions.
+func padLists(rng *rand.Rand, s *Spec) {
+	insert := func(n int, at func(i int)) {
+		for i := 0; i < n; i++ {
+			at(i)
+		}
+	}
+	hasPermitted := func(vs []Val) bool {
+		for _, v := range vs {
+			if !v.Neg {
+				return true
+			}
+		}
+
+		return false
+	}
+	if len(s.Domains) > 0 && rng.Intn(25) == 0 {
+		perm := hasPermitted(s.Domains)
+		insert(15+rng.Intn(66), func(i int) {
+			v := Val{Name: "f" + strconv.Itoa(i) + ".filler.example", Neg: !perm}
+			j := rng.Intn(len(s.Domains) + 1)
+			s.Domains = append(s.Domains[:j], append([]Val{v}, s.Domains[j:]...)...)
+		})
+	}
+	if len(s.DenyAllow) > 0 && rng.Intn(25) == 0 {
+		insert(15+rng.Intn(66), func(i int) {
+			j := rng.Intn(len(s.DenyAllow) + 1)
+			s.DenyAllow = append(s.DenyAllow[:j], append([]string{"f" + strconv.Itoa(i) + ".filler.example"}, s.DenyAllow[j:]...)...)
+		})
+	}
+	if len(s.CTags) > 0 && rng.Intn(25) == 0 {
+		perm := hasPermitted(s.CTags)
+		insert(15+rng.Intn(66), func(i int) {
+			v := Val{Name: "filler_tag_" + strconv.Itoa(i), Neg: !perm}
+			j := rng.Intn(len(s.CTags) + 1)
+			s.CTags = append(s.CTags[:j], append([]Val{v}, s.CTags[j:]...)...)
+		})
 	}
 }
 
